@@ -381,6 +381,9 @@ func (c *corpus) genFilter(k string) filterSpec {
 	case op >= 5: // numeric: mostly integers near the stored ones
 		if rnd.chance(85) {
 			v = pick(intVals)
+			if rnd.chance(20) { // the bounds of the range: auto-match / unreachable handling
+				v = pick([]string{max256, "-" + max256})
+			}
 			if len(vals) > 0 && rnd.chance(50) {
 				if s := string(pick(vals)); len(s) < 80 && !strings.ContainsAny(s, "\x00") {
 					v = s
